@@ -52,7 +52,7 @@ STRENGTH = {
  ("C04",1): "C04_SendOnlyToMarkedStep / T_C04_SendOnlyToMarked (the target's bit at the last turn of the rotation), NEG ResendWithoutCheck",
  ("C06",1): "e2e: the worker thread stalled across one / two shutdown ticks",
  ("C06",2): "e2e: the server on a plain Tokio runtime, system_exit",
- ("C07",2): "NOT detected: needs an environment action INSIDE one worker poll (between its readiness sweep and its receive); the stepped engine has yield points in the accept thread only - recorded as a limit",
+ ("C07",2): "builder flow event `pendrace`: the call itself makes the service pending and the readiness sweep that follows in the SAME worker poll is held for 300 ms while a second client connects (real threads): it must wait (T_C07_NoCallWhilePending)",
  ("C08",2): "load scenarios in which a worker dies exactly at its limit (limit 1)",
  ("C10",2): "the rt driver builds some arbiters on a multi-threaded Tokio runtime (with_tokio_rt)",
 }
